@@ -1644,13 +1644,19 @@ func rpcOracles(trace string) []string {
 	finished := map[int]bool{}
 	stalls := strings.Contains(trace, "fH") || strings.Contains(trace, "fW") || strings.Contains(trace, "lS") || strings.Contains(trace, "lQ")
 	// hostile and fault ops make the counts uncertain: the table comparison is only made on clean histories
-	dirty := strings.Contains(trace, "pH") || strings.Contains(trace, ";f") || strings.HasPrefix(trace, "f") ||
-		strings.Contains(trace, "pU") || strings.Contains(trace, "pJ") || strings.Contains(trace, "pD")
 	// a message the transport refused may have been a Release: the counts of later ones then cover it
 	sendFaults := false
 	for _, k := range []string{"fN", "fS", "fV"} {
 		sendFaults = sendFaults || strings.Contains(trace, ";"+k) || strings.HasPrefix(trace, k)
 	}
+	// (a held send or a held release of a received message — fW / fH … fG — is not a fault: while it lasts the wire log
+	// lags behind the tables, so the comparison waits for fG)
+	dirty := strings.Contains(trace, "pH") || sendFaults ||
+		strings.Contains(trace, "pU") || strings.Contains(trace, "pJ") || strings.Contains(trace, "pD")
+	holding := false // between fW / fH / lS / lQ and fG
+	peerFinished := map[string]bool{} // answer ids the peer has sent a Finish for since it last used them
+	recvTotal, relTotal := map[int]int{}, map[int]int{} // descriptors received / references given back per import id, over the whole history
+	lastImports := ""
 	for _, step := range strings.Split(trace, ";") {
 		f := strings.SplitN(step, ":", 2)
 		if len(f) < 2 {
@@ -1670,6 +1676,12 @@ func rpcOracles(trace string) []string {
 			fmt.Sscanf(op, "pDr%d", &id)
 			delete(embargoed, id)
 		}
+		if strings.HasPrefix(op, "fW") || strings.HasPrefix(op, "fH") || strings.HasPrefix(op, "lS") || strings.HasPrefix(op, "lQ") {
+			holding = true
+		}
+		if strings.HasPrefix(op, "fG") {
+			holding = false
+		}
 		if res == "blocked" && !(len(embargoed) > 0 && !connDone && (strings.HasPrefix(op, "lC") || strings.HasPrefix(op, "lP"))) {
 			// (a call on an embargoed capability waits, inside SendCall, for the peer's Disembargo: that is the protocol;
 			// once the connection has shut down every embargo is lifted and nothing may wait any more)
@@ -1684,15 +1696,19 @@ func rpcOracles(trace string) []string {
 			g := strings.Split(op[2:], ":")
 			if q, err := strconv.Atoi(g[0]); err == nil && !aborted {
 				outstandingAns[q]++
-				if _, ok := sentOrder["t"+g[0]]; !ok {
+				// (the embargo choreographies reflect a local call under its own tag: the first position counts — except
+				// for an id the peer uses again after its Finish, which names a new call)
+				if _, ok := sentOrder["t"+g[0]]; !ok || peerFinished[g[0]] {
 					sentOrder["t"+g[0]] = pos
 				}
+				delete(peerFinished, g[0])
 			}
 			if len(g) > 3 {
 				for _, d := range strings.Split(g[3], "+") {
 					if len(d) > 1 && (d[0] == 's' || d[0] == 'm') {
 						n, _ := strconv.Atoi(d[1:])
 						impRefs[n]++
+						recvTotal[n]++
 					}
 				}
 			}
@@ -1707,6 +1723,9 @@ func rpcOracles(trace string) []string {
 				delete(finished, q)
 				delete(retRefs, q)
 			}
+		}
+		if strings.HasPrefix(op, "pF") {
+			peerFinished[strings.Split(op[2:], ":")[0]] = true
 		}
 		if strings.HasPrefix(op, "pF") && !aborted {
 			g := strings.Split(op[2:], ":")
@@ -1770,6 +1789,7 @@ func rpcOracles(trace string) []string {
 					if len(d) > 1 && (d[0] == 's' || d[0] == 'm') {
 						n, _ := strconv.Atoi(d[1:])
 						impRefs[n]++
+						recvTotal[n]++
 					}
 				}
 			}
@@ -1787,17 +1807,18 @@ func rpcOracles(trace string) []string {
 				if len(parts) != 4 {
 					break
 				}
+				lastImports = parts[1]
 				if parts[3] == "L1" && !stalls {
 					note("!sender-lock-held-at-quiescence")
 				}
 				if !aborted && !closedByScript {
 					for _, kv := range strings.Split(parts[1], ",") {
 						var id, n int
-						if _, err := fmt.Sscanf(kv, "i%d=%d", &id, &n); err == nil && !uncertain[id] && !dirty && n != impRefs[id] {
+						if _, err := fmt.Sscanf(kv, "i%d=%d", &id, &n); err == nil && !uncertain[id] && !dirty && !stalls && n != impRefs[id] {
 							note(fmt.Sprintf("!import-%d-wirerefs-%d-want-%d", id, n, impRefs[id]))
 						}
 					}
-					if !dirty {
+					if !dirty && !holding {
 						got := map[int]int{}
 						for _, kv := range strings.Split(parts[0], ",") {
 							var id, n int
@@ -1819,6 +1840,11 @@ func rpcOracles(trace string) []string {
 				}
 			case strings.HasPrefix(ev, "!"):
 				note(ev)
+			case strings.HasPrefix(ev, "=c") && strings.HasSuffix(ev, "~disconnected"):
+				// a call fails as "disconnected" only on a connection that is going down
+				if !aborted && !connDone && !closedByScript && !sendFaults && !strings.Contains(evs, "#done") {
+					note("!call-disconnected-on-live-connection:" + ev)
+				}
 			case ev == ">Abort":
 				aborted = true
 			case strings.HasPrefix(ev, ">Ret(") || strings.HasPrefix(ev, ">Call("):
@@ -1885,10 +1911,13 @@ func rpcOracles(trace string) []string {
 			case strings.HasPrefix(ev, ">Rel("):
 				var id, n int
 				fmt.Sscanf(ev, ">Rel(%d,%d)", &id, &n)
-				if n != impRefs[id] && !uncertain[id] && !sendFaults {
+				// (with a held send / release in the history the wire order of a Release and of the descriptors around it is not
+				// the order in which the Conn decided them: the totals are compared at the end instead)
+				if n != impRefs[id] && !uncertain[id] && !sendFaults && !stalls {
 					note(fmt.Sprintf("!release-%d-count-%d-want-%d", id, n, impRefs[id]))
 				}
 				impRefs[id] = 0
+				relTotal[id] += n
 			case strings.HasPrefix(ev, "@"):
 				g := strings.Split(ev[1:], ".")
 				if len(g) == 3 {
@@ -1899,6 +1928,21 @@ func rpcOracles(trace string) []string {
 						lastDeliv[g[0]] = p
 					}
 				}
+			}
+		}
+	}
+	// over the whole history: every reference received for an import that is no longer in the table was given back
+	if !dirty && !aborted && !closedByScript && !connDone {
+		have := map[int]bool{}
+		for _, kv := range strings.Split(lastImports, ",") {
+			var id, n int
+			if _, err := fmt.Sscanf(kv, "i%d=%d", &id, &n); err == nil {
+				have[id] = true
+			}
+		}
+		for id, n := range recvTotal {
+			if !have[id] && !uncertain[id] && relTotal[id] != n {
+				note(fmt.Sprintf("!import-%d-released-%d-of-%d", id, relTotal[id], n))
 			}
 		}
 	}
@@ -2039,6 +2083,10 @@ var rpcDirected = []string{
 	"1lB,pRQ0:boot:s1,lC0:5:k0,lP0:0:0,pRQ0:ok:r0,lH0:0,lY0,lR1,pDr0:e0,lC0:0",        // … all of its references are
 	"1lB,pRQ0:boot:s1,lC0:5:k0,lP0:0:0,pRQ0:ok:r0,lH0:0,lY0,pDr0:e0,lC1:0,lR1",        // … or one survives and is used afterwards
 	"1pB0,lB,lC0:0,pRQ0:boot:rX0,lR0,lZ",                                             // an embargoed bootstrap capability is released, then Close lifts the embargo
+	"1pB0,pF0:0,fW,pC1:eX0:2,pF1:1,fG,pB2",                                            // the Finish (releasing the result caps) is handled while the Return is still being written
+	"1pB0,pF0:0,fW,pC1:eX0:2,pF1:0,fG,pLX1:1,pB2",                                     // … without releaseResultCaps, then an explicit Release
+	"0lB,pRQ0:boot:s1,lC0:0,fW,lr0,pRQ0:ok:s1,fG,lH0:0,lC1:0,pRQ0:ok,lR1,lY0",         // a descriptor for an import arrives while its Release is still being written
+	"0lB,pRQ0:boot:s1,lC0:0,fW,lr0,pRQ0:ok:s1+s1,fG,lH0:0,lY0,lC1:0,pRQ0:ok,lR1",      // … two of them; the results are released first
 	"1lB,fH,pRQ0:boot:s1,lB,fG,pRQ0:boot:s1",                                         // a new question while the Return's Finish is still to be sent
 	"1lB,lB,pRQ0:boot:s1,lS0:0,lr0,pRQ0:boot:s1,fG,lR1",                               // a reference to an import arrives while its last handle is being released
 	"1lB,lB,pRQ0:boot:s1,lS0:0,lr0,pRQ0:boot:s1,lR1,fG",                               // … and the newer client goes away first
@@ -2057,7 +2105,10 @@ func genRPCCheck(rec *lib.Rec, r *lib.Rng, n int, hostile, faults bool) {
 			if strings.HasPrefix(d, "lB") {
 				boot = r.Intn(2)
 			}
-			d = strings.TrimPrefix(d, "1")
+			if strings.HasPrefix(d, "0") {
+				boot = 0
+			}
+			d = strings.TrimPrefix(strings.TrimPrefix(d, "1"), "0")
 			s = d + "," + s
 		}
 		rec.Op("S", "rpc check "+strconv.Itoa(boot)+" "+s, true)
